@@ -344,6 +344,9 @@ func checkCLI(cc CLICase) error {
 	if cc.Lines {
 		args = append(args, "-l")
 	}
+	if c.UseGunzip() {
+		args = append(args, "-z")
+	}
 	switch c.Matcher.Kind {
 	case "regex":
 		args = append(args, "-m", c.Matcher.Pattern)
